@@ -16,7 +16,7 @@ type pdParser struct {
 }
 
 func (p *pdParser) ws() {
-	for p.i < len(p.s) && (p.s[p.i] == ' ' || p.s[p.i] == '\t' || p.s[p.i] == '\n' || p.s[p.i] == '\r' || p.s[p.i] == '\f') {
+	for p.i < len(p.s) && (p.s[p.i] == ' ' || p.s[p.i] == '\t' || p.s[p.i] == '\n' || p.s[p.i] == '\r') { // SVG 1.1 wsp; the form feed that SVG 2 adds is not required of a reader
 		p.i++
 	}
 }
